@@ -132,7 +132,9 @@ CHECKS = {
     'C13': {
         'text': 'Theorems in coq/props/C13.v: spine selection is a gate independent of the cell; cells depend on (categories, '
                 'encoding) only; each encoding is a cell-wise map applied to the category-filtered extended text; explicit '
-                'default categories select the same set as omission. Document level: combinations of two or three non-default '
+                'default categories select the same set as omission; for single-spine **kern documents of any length the whole export under any '
+                'option set without a range is, line by line, a function of the token and of (categories, encoding) only '
+                '(C13_single_spine_document_under_options). Document level otherwise: combinations of two or three non-default '
                 'options (subsets of ids/types, include/exclude, six encodings) against the composed transformations of the '
                 'generator\'s description, and six explicit-default variants, kernpy vs model vs oracle.',
         'note': _COMMON_NOTE,
